@@ -388,6 +388,11 @@ def assertedPositions (r : Report) : List Nat := assertedAt 0 r.items
 def timesOk (reqTime : Bool) (items : List Item) : Bool :=
   items.all fun it => it.time.isSome == (it.asserted && reqTime)
 
+/-- Number of events (received, unsupported block, forwarded, delivered, deleted) that happened to
+non-administrative subjects along a history. -/
+def nonAdminEventCount (h : List Step) : Nat :=
+  (h.map fun e => if e.subject.admin then 0 else (flowEvents e.subject e.flow).length).sum
+
 /-- The bundle ID without the fragment fields. -/
 def BundleId.scrub (i : BundleId) : BundleId := { i with frag := none }
 
